@@ -63,10 +63,20 @@ func judgeScenario(r *core.Run, c *Case, out *sims.Outcome) {
 		r.Violation("shape:"+shapeSig(msgs)+":"+c.Sc.Entry, fmt.Sprintf("%s -> %s: %s", c.Sc.Desc(), sims.CanonString(sims.Canon(out.Results)), strings.Join(msgs, "; ")), c)
 		return
 	}
+	if n := c.Sc.RootContacts(out.Log); n > 0 {
+		r.Violation("root-contacted:"+c.Sc.Entry, fmt.Sprintf("%s: %d requests to locations only the last certificate names", c.Sc.Desc(), n), c)
+		return
+	}
+	if l := c.Sc.Len; len(c.Sc.Plans[l-1].Shape.OCSP)+len(c.Sc.Plans[l-1].Shape.CRL) > 0 {
+		r.Count("last-certificate-with-pointers", 1)
+	}
 	r.Count("valid-chain-results", 1)
 	for _, x := range out.Results {
 		r.Count("verdict-"+x.Result.String(), 1)
 	}
+	// a caller may do what it likes with its results: later reports are judged
+	// exactly like this one
+	sims.Scribble(out.Results)
 }
 
 func randomPlan(rng *rand.Rand, hostileURLs bool) sims.CertPlan {
@@ -109,6 +119,12 @@ func randomScenario(rng *rand.Rand, length int) sims.Scenario {
 	}
 	if length > 1 && rng.IntN(10) == 0 {
 		sc.Plans[1+rng.IntN(length-1)].Shape.NoCRLSign = true
+	}
+	if rng.IntN(4) == 0 {
+		// the last certificate advertises a responder and a distribution point of
+		// its own (nobody serves them: it has no issuer in the chain to ask about)
+		sc.Plans[length-1].Shape.OCSP = []string{"http"}
+		sc.Plans[length-1].Shape.CRL = []string{"http"}
 	}
 	return sc
 }
@@ -167,6 +183,37 @@ func invalidChain(kind string, ts bool) []*x509.Certificate {
 		return []*x509.Certificate{ch[0]}
 	}
 	panic("unknown invalid kind")
+}
+
+var breakKinds = []string{"drop-root", "drop-intermediate", "leaf-alone", "duplicate-root", "swap-upper", "reversed", "leaf-twice"}
+
+// breakChain rearranges a valid chain of length >= 3 into an invalid one that
+// still starts with the same leaf (except "reversed").
+func breakChain(full []*x509.Certificate, kind string) []*x509.Certificate {
+	n := len(full)
+	switch kind {
+	case "drop-root":
+		return append([]*x509.Certificate{}, full[:n-1]...)
+	case "drop-intermediate":
+		return append(append([]*x509.Certificate{}, full[:1]...), full[2:]...)
+	case "leaf-alone":
+		return []*x509.Certificate{full[0]}
+	case "duplicate-root":
+		return append(append([]*x509.Certificate{}, full...), full[n-1])
+	case "swap-upper":
+		out := append([]*x509.Certificate{}, full...)
+		out[n-1], out[n-2] = out[n-2], out[n-1]
+		return out
+	case "reversed":
+		out := make([]*x509.Certificate, n)
+		for i := range full {
+			out[n-1-i] = full[i]
+		}
+		return out
+	case "leaf-twice":
+		return append([]*x509.Certificate{full[0]}, full...)
+	}
+	panic("unknown break kind")
 }
 
 func invalidChainWrongPurpose(ts bool) []*x509.Certificate {
@@ -237,6 +284,33 @@ func execCase(r *core.Run, c *Case) {
 		r.Count("forced-orders", 1)
 		r.Nontrivial(fmt.Sprintf("forced %v %s", c.Order, c.Sc.Desc()))
 		r.Sample("forced", map[string]any{"scenario": c.Sc.Desc(), "order_asked": c.Order, "order_observed": observed, "result": sims.CanonString(sims.Canon(out.Results))})
+	case "after-valid":
+		// the complete chain first, then a broken arrangement of the same
+		// certificates: once through the same validator, once through a new one
+		env := c.Sc.Prepare()
+		full := env.Chain
+		judgeScenario(r, c, env.Run(context.Background()))
+		broken := breakChain(full, c.Invalid)
+		for _, fresh := range []bool{false, true} {
+			e := env
+			if fresh {
+				e = c.Sc.Prepare()
+			}
+			e.Chain = broken
+			out := e.Run(context.Background())
+			r.Eval(1)
+			if out.Panic != nil {
+				r.Count("panicked", 1)
+				continue
+			}
+			msgs := mon.Shape(broken, out.Results, out.Err, false, c.Sc.Entry == "ocsp", sims.IsInvalidChain(out.Err))
+			if len(msgs) > 0 {
+				r.Violation("shape:"+shapeSig(msgs)+":"+c.Sc.Entry+":after-valid:"+c.Invalid, fmt.Sprintf("%s of a chain that had just been validated (%s; new validator=%v): %s", c.Invalid, c.Sc.Desc(), fresh, strings.Join(msgs, "; ")), c)
+				return
+			}
+			r.Count("invalid-after-valid", 1)
+		}
+		r.Nontrivial(fmt.Sprintf("after-valid %s %s", c.Invalid, c.Sc.Desc()))
 	case "cancel":
 		env := c.Sc.Prepare()
 		ctx, cancel := context.WithCancel(context.Background())
@@ -273,7 +347,7 @@ func execCase(r *core.Run, c *Case) {
 
 func run(r *core.Run) int {
 	r.Rule = "sweep: chains of length 1..5, per certificate 0..3 responders and 0..3 distribution points over the full OCSP / CRL behaviour alphabets and URL kinds (incl. unsupported and unparsable), both purposes, three entry points, fetcher and HTTP routes, cache faults; " +
-		"forced: every completion order of the concurrent per-certificate checks (k<=3 quick, k<=4 thorough) via the barrier transport; invalid: 11 chain defects x both purposes x three entry points. " +
+		"forced: every completion order of the concurrent per-certificate checks (k<=3 quick, k<=4 thorough) via the barrier transport; invalid: 11 chain defects x both purposes x three entry points; after-valid: 7 broken arrangements of a chain validated a moment earlier (same and new validator); every returned result is scribbled over after it was judged. " +
 		"Oracle: the result-shape invariants only. non-trivial = chain of length >= 2 with at least one source, or an invalid chain; distinct by descriptor"
 	r.Assume("the documented server-result shapes in result.CertRevocationResult are the yardstick")
 	var cases []*Case
@@ -299,6 +373,10 @@ func run(r *core.Run) int {
 				cases = append(cases, &Case{Kind: "invalid", Invalid: k, TS: ts, Entry: e})
 			}
 		}
+	}
+	for i, na := 0, r.Pick(400, 6000); i < na; i++ {
+		sc := randomScenario(rng, 3+rng.IntN(3))
+		cases = append(cases, &Case{Kind: "after-valid", Sc: sc, Invalid: breakKinds[i%len(breakKinds)]})
 	}
 	var forced []*Case
 	nf := r.Pick(150, 600)
@@ -327,6 +405,8 @@ func run(r *core.Run) int {
 	}
 	return r.Finish(r.Pick(1500, 30000),
 		core.Require{Counter: "valid-chain-results", Why: "no result slice was judged"},
+		core.Require{Counter: "invalid-after-valid", Why: "no broken chain followed its valid original"},
+		core.Require{Counter: "last-certificate-with-pointers", Why: "no last certificate advertised a responder"},
 		core.Require{Counter: "invalid-chain-errors", Why: "no invalid chain was judged"},
 		core.Require{Counter: "forced-orders", Why: "no forced completion order"},
 		core.Require{Counter: "cancelled", Why: "no cancelled call was judged"})
